@@ -53,7 +53,9 @@ CLASSES = ["zero", "ff", "cycle", "lf", "crlf", "mixed", "badutf8", "trailing", 
 
 NAMES = [b"dump.bz2", b"x.xz", b"page.html.br", b"plain.txt", b"sp ace.txt", b"a&b?c#d.txt", b"%41.txt", b"\xae.txt", b"noext", b"x.html", b"x.bin", b"x.gif", b"x.txt.gz", b"UP.TXT", b"x.tar.gz", b"x.tgz", b"dot.in.name.txt", b"x.txt.bz2", b"x.unknownext", b"x.pdf.Z",
          # names that look like URLs with a scheme, a query or a fragment to anything that parses them as one
-         b"data:logo.gif", b"Data:report.html", b"x:.html", b"re:faq#1.html", b"http:page.html", b"what?.gif", b"semi;colon.html", b"mailto:me@x.txt"]
+         b"data:logo.gif", b"Data:report.html", b"x:.html", b"re:faq#1.html", b"http:page.html", b"what?.gif", b"semi;colon.html", b"mailto:me@x.txt",
+         # extensions that only a site's own tables know
+         b"meeting.pgnote", b"blob.pgdat"]
 
 PROTOS = ["gopher", "gopherp", "http", "http_head", "wap", "gemini", "spartan", "sgopher", "sgopherp", "https"]
 
@@ -80,6 +82,9 @@ def _mime_tables(variant=False):
             for ln in VARIANT_EXTRA.splitlines():
                 t, e = ln.split()
                 ext[b"." + e] = t.decode()
+            # z-site.types, then (listed later, so it wins) a-local.types
+            ext[b".pgnote"], ext[b".pgdat"] = "application/x-first", "application/x-first"
+            ext[b".pgnote"], ext[b".gif"] = "text/x-second", "image/x-local-gif"
         suffix = {b".svgz": b".svg.gz", b".tgz": b".tar.gz", b".taz": b".tar.gz", b".tz": b".tar.gz", b".tbz2": b".tar.bz2", b".txz": b".tar.xz"}
         _mime[variant] = (ext, enc, suffix)
     return _mime[variant]
@@ -230,12 +235,16 @@ def _make_world(handlers, spec=None):
     d = rig.fresh_dir("c04mime")
     import os as _os
 
-    mt = _os.path.join(d, "mime.types")
+    # two tables, listed in an order that is not their alphabetical order; the one listed later wins where they disagree
+    mt = _os.path.join(d, "z-site.types")
+    mt2 = _os.path.join(d, "a-local.types")
     with open(rig.MIME_TYPES, "rb") as f:
         base = f.read()
     with open(mt, "wb") as f:
-        f.write(base + b"\n" + VARIANT_EXTRA)
-    return rig.World(spec or {}, handlers="default", cachetime=0, tag="c04", pygopherd__mimetypes=mt, pygopherd__encoding="[('.gz', 'gzip')]")
+        f.write(base + b"\n" + VARIANT_EXTRA + b"application/x-first pgnote pgdat\n")
+    with open(mt2, "wb") as f:
+        f.write(b"text/x-second pgnote\nimage/x-local-gif gif\n")
+    return rig.World(spec or {}, handlers="default", cachetime=0, tag="c04", pygopherd__mimetypes=mt + ":" + _os.path.join(d, "missing.types") + ":" + mt2, pygopherd__encoding="[('.gz', 'gzip')]")
 
 
 def _headers_of(out):
